@@ -40,8 +40,16 @@ def plan(tier, seed):
     return shards
 
 
+ENUMS = ["enum:EXACT", "enum:PARCONS", "enum:BIOCONSERT", "enum:BIOCO", "enum:KWIKSORTRANDOM", "enum:PICKAPERM",
+         "enum:BORDACOUNT", "enum:COPELANDMETHOD"]
+
+
 def gen_case(rng, ctx):
-    return algos.gen_algo_case(rng, ctx, nmax=6 if ("C" in ctx.mode or "D" in ctx.mode) else 8)
+    case = algos.gen_algo_case(rng, ctx, nmax=6 if ("C" in ctx.mode or "D" in ctx.mode) else 8)
+    # plus one algorithm obtained through get_algorithm(Algorithm.X): whatever object the enumeration hands out must
+    # return well-formed consensuses too
+    case["configs"] = case["configs"] + [rng.choice(ENUMS)]
+    return case
 
 
 def check_case(case, ctx):
